@@ -35,6 +35,9 @@ def doc_corpus():
         ("static fields: defaults first, then the declared initialisers in textual order",
          "class A { public static A first = new A(); public static int count = 5; public int id; public constructor() -> A { count = count + 1; this.id = count; return this; } }\n"
          "function main() -> void { echo(A.count); A b = new A(); echo(b.id); echo(A.first.id); }", "5\n6\n1\n"),
+        ("a class first initialised on demand is not initialised again in its turn",
+         "static class A { public static int v = B.t + 1; }\nstatic class B { public static int n = 0; public static int t = bump(); public static function bump() -> int { n = n + 1; echo(\"bump\"); return 1; } }\n"
+         "function main() -> void { echo(A.v); echo(B.n); }", "bump\n2\n1\n"),
         ("a variable keeps its declared class through null and reassignment",
          AB + O + "function main() -> void { O o = new O(); A x = new B(); echo(o.f(x)); x = null; echo(o.f(x)); x = new B(); echo(o.f(x)); }", "f(A)\nf(A)\nf(A)\n"),
         ("a field keeps its declared class through null and reassignment",
